@@ -9,10 +9,10 @@ META = dict(
     property="C42",
     level="exploration",
     technique="round trip server serializer -> client parser; complete enumeration of short item lists over a hostile byte alphabet + Hypothesis nested structures; a small RFC 3501 reader arbitrates which side is at fault",
-    level_text="For every generated structure x (nested lists to depth 4 of byte strings over a hostile alphabet incl. quotes, backslashes, CR, LF, braces, brackets, parentheses, 'NIL', '{3}', empty and >1000-octet strings; None; integers) parseNestedParens(collapseNestedLists([x])) must equal [x] with integers as decimal text; no exception is acceptable. All lists of <=2 items over 159 short items (every string of <=3 bytes over a 5-byte alphabet, None, an int, an empty list) are enumerated, plus each item nested.",
+    level_text="For every generated structure x (nested lists to depth 4 of byte strings over a hostile alphabet incl. quotes, backslashes, CR, LF, braces, brackets, parentheses, 'NIL', '{3}', empty and >1000-octet strings; None; integers) parseNestedParens(collapseNestedLists([x])) must equal [x] with integers as decimal text; no exception is acceptable; a second parse after the caller destroyed the first result must give the same; for part of the cases the serialization is also sent as an untagged response through a real IMAP4Client (generated segmentation; literals spooled to BytesIO, to a plain write/seek/read object returned by an overridden messageFile(), or to a real temporary file via a lowered _memoryFileLimit) and what the client hands to its unsolicited-response hook must be the same structure. All lists of <=2 items over 159 short items (every string of <=3 bytes over a 5-byte alphabet, None, an int, an empty list) are enumerated, plus each item nested.",
     level_note="Round-trip oracle needs no model. A 40-line RFC 3501 reader (quoted / literal / atom / list) is used only to name the faulty side when the round trip fails; it is trusted for classification, not for the verdict.",
     design_ref="§5 C42",
-    rule="case = {x: nested list}; items are bytes, None, int, list or ('rep', unit, n) standing for unit*n. non-trivial = some byte string needs quoting care (contains a quote, backslash, CR, LF, brace, parenthesis, bracket, space, is empty, is 'NIL', or is longer than 1000 octets). Distinct by the whole structure.",
+    rule="case = {x: nested list, wire?: {spool, cuts}}; items are bytes, None, int, list or ('rep', unit, n) standing for unit*n. non-trivial = some byte string needs quoting care (contains a quote, backslash, CR, LF, brace, parenthesis, bracket, space, is empty, is 'NIL', or is longer than 1000 octets). Distinct by the whole structure.",
 )
 
 HOSTILE_BYTES = b'"\\\r\n{}()[] '
@@ -141,6 +141,111 @@ def _roundtrip(x):
     return ser, ("ok", got)
 
 
+def _wreck(v):
+    if isinstance(v, list):
+        for i in v:
+            _wreck(i)
+        del v[:]
+        v.append(b"wrecked")
+
+
+class _PlainFile:
+    """What IMAP4Client.messageFile documents: 'any object which implements
+    write(string) and seek(int, int)' (and read).  Not a BytesIO."""
+
+    def __init__(self):
+        self.buf = bytearray()
+        self.pos = 0
+
+    def write(self, data):
+        self.buf[self.pos:self.pos + len(data)] = data
+        self.pos += len(data)
+
+    def seek(self, off, whence=0):
+        self.pos = off if whence == 0 else (self.pos + off if whence == 1 else len(self.buf) + off)
+
+    def tell(self):
+        return self.pos
+
+    def read(self, n=-1):
+        out = bytes(self.buf[self.pos:] if n is None or n < 0 else self.buf[self.pos:self.pos + n])
+        self.pos += len(out)
+        return out
+
+    def close(self):
+        pass
+
+
+def _literal_octets(x):
+    return sum(len(s) for s in _strings(x) if b"\r" in s or b"\n" in s or len(s) > 1000)
+
+
+def _run_wire(ctx, case, x, ser, want, wire):
+    """The same serialization arriving at a real IMAP4Client as an untagged
+    response, in generated segments; the client frames the literals (spooling
+    them to the configured kind of file), runs its parser and hands the result
+    to its unsolicited-response hook."""
+    import os
+    import tempfile
+    from twisted.internet.testing import StringTransport
+    from twisted.mail import imap4
+    from lib.core import VERIF
+    if len(ser) - _literal_octets(x) > 12000:
+        ctx.count("wire: skipped (a response line would exceed the client's line limit)")
+        return
+    spool, cuts = wire["spool"], wire["cuts"]
+
+    class Client(imap4.IMAP4Client):
+        def __init__(self):
+            imap4.IMAP4Client.__init__(self)
+            self.h_info = []
+            self.h_files = 0
+
+        def _extraInfo(self, lines):
+            self.h_info.append(lines)
+
+        def messageFile(self, octets):
+            self.h_files += 1
+            if spool == "plainfile":
+                return _PlainFile()
+            return imap4.IMAP4Client.messageFile(self, octets)
+
+    c = Client()
+    if spool == "tempfile":
+        c._memoryFileLimit = 0          # every literal is spooled to a real temporary file
+    tr = StringTransport()
+    saved = tempfile.tempdir
+    work = os.path.join(VERIF, ".work")
+    os.makedirs(work, exist_ok=True)
+    tempfile.tempdir = work
+    try:
+        c.makeConnection(tr)
+        c.dataReceived(b"* OK ready\r\n")
+        stream = b"* XVERIF " + ser + b"\r\n"
+        pos = k = 0
+        while pos < len(stream):
+            n = cuts[k % len(cuts)] if cuts else len(stream)
+            k += 1
+            c.dataReceived(stream[pos:pos + n])
+            pos += n
+    finally:
+        tempfile.tempdir = saved
+        c.connectionLost(None)
+    ctx.count("wire: response fed through IMAP4Client (spool=%s)" % spool)
+    if c.h_files:
+        ctx.count("wire: response contains literals")
+        if spool != "memory":
+            ctx.count("wire: literal spooled to a non-BytesIO file")
+    if cuts:
+        ctx.count("wire: segmented delivery")
+    expect = [[[b"XVERIF"] + want]]
+    if c.h_info != expect:
+        got = repr(c.h_info)[:500]
+        ctx.violation("wire-client-reassembly-wrong", case,
+                      f"x={x!r}"[:400] + f"; spool={spool} cuts={cuts!r}; client delivered {got}; "
+                      f"expected {expect!r}"[:500] + f"; transport closed={tr.disconnecting}")
+
+
 def run_case(ctx, case):
     x = _build(case["x"])
     assert isinstance(x, list)
@@ -162,6 +267,17 @@ def run_case(ctx, case):
 
     ser, res = _roundtrip(x)
     if res == ("ok", want):
+        # history: whatever a caller did to an earlier result must not show
+        # in a later parse of the same serialization
+        _wreck(res[1])
+        ctx.count("parsed again after the first result was destroyed by its caller")
+        _ser_b, again = _roundtrip(x)
+        if again != ("ok", want):
+            ctx.violation("parser-result-depends-on-earlier-callers", case,
+                          f"x={x!r}"[:400] + f"; second parse of {ser[:200]!r} gave {again!r}"[:600])
+        wire = case.get("wire")
+        if wire is not None:
+            _run_wire(ctx, case, x, ser, want, wire)
         if hard and len(ctx.samples) < 5 and len(ser) < 200:
             ctx.sample(case)
         return
@@ -257,7 +373,31 @@ def _structure(piece, binary_ok):
     return st.sampled_from([1, 2, 2, 3, 3, 4, 4]).flatmap(nest).map(lambda x: dict(x=x))
 
 
-CASES = st.one_of(_structure(PIECE, True), _structure(CALM_PIECE, False))
+WIRE = st.one_of(
+    st.none(),
+    st.builds(lambda spool, cuts: dict(spool=spool, cuts=cuts),
+              st.sampled_from(["memory", "plainfile", "plainfile", "tempfile"]),
+              st.one_of(st.just([]), st.just([1]), st.lists(st.integers(1, 30), min_size=1, max_size=4))))
+
+
+def _with_wire(structures):
+    return st.builds(lambda c, w: dict(c, wire=w) if w is not None else c, structures, WIRE)
+
+
+CASES = st.one_of(_structure(PIECE, True), _with_wire(_structure(CALM_PIECE, False)))
+
+WIRE_ITEMS = [b"\r", b"\n", b"a\r\nb", b"\r\n", b"x", b"", None, 7, [], b'"', b"{1}", b"a b"]
+
+
+def _small_wire_cases():
+    """Every list of <=2 items over WIRE_ITEMS (half of them literals) through a
+    real IMAP4Client: three kinds of literal spool file x whole / bytewise delivery."""
+    shapes = [[]] + [[a] for a in WIRE_ITEMS] + [[a, b] for a in WIRE_ITEMS for b in WIRE_ITEMS]
+    shapes += [[[a], b] for a in WIRE_ITEMS[:4] for b in WIRE_ITEMS[:6]]
+    for x in shapes:
+        for spool in ("memory", "plainfile", "tempfile"):
+            for cuts in ([], [1]):
+                yield dict(x=x, wire=dict(spool=spool, cuts=cuts))
 
 
 def _hyp_shard(sub, i):
@@ -270,8 +410,10 @@ def run(ctx):
     else:
         for part in range(16):      # 25 759 cheap cases: a few seconds on one core
             _small_shard(ctx, part)
+    enumerate_run(ctx, _small_wire_cases(), run_case, stop_after_violation=False)
     ctx.extra["exhaustive_small_scope"] = ("all lists of <=2 items over %d items: every byte string of <=3 bytes over %r, "
-                                           "None, 7, []" % (len(_small_items()), SMALL_ALPHA))
+                                           "None, 7, []; wire path: all lists of <=2 items over %r x spool kinds x whole/bytewise delivery"
+                                           % (len(_small_items()), SMALL_ALPHA, WIRE_ITEMS))
     ctx.exhaustive = False
     if ctx.has_violation():
         return
